@@ -15,8 +15,8 @@ def is_nan(x):
     return isinstance(x, float) and x != x
 
 
-SERIES_T = ["hampel", "imputer-mean", "imputer-ffill", "imputer-linear", "imputer-drift", "log", "detrender", "deseasonalizer", "passthrough", "cosine"]
-FORECASTERS = ["naive-last", "naive-mean", "naive-drift", "poly", "sm-adapter", "reduce-recursive", "ensemble", "pipeline"]
+SERIES_T = ["hampel", "imputer-mean", "imputer-ffill", "imputer-linear", "imputer-drift", "imputer-placeholder", "log", "detrender", "deseasonalizer", "passthrough", "cosine"]
+FORECASTERS = ["naive-last", "naive-mean", "naive-drift", "naive-drift-failing-predict", "poly", "sm-adapter", "reduce-recursive", "ensemble", "pipeline"]
 PANEL_T = ["padding", "truncation", "paa", "tabularizer", "concatenator", "interval", "sliding", "features"]
 
 
@@ -77,11 +77,19 @@ class C12(Harness):
         if w == "log":
             for v in inp["y"] + inp["z"]:
                 ctx.assume(v > 0)
-        if w.startswith("imputer"):
+        if w == "imputer-placeholder":
+            inp["mv"] = ctx.fresh_real("placeholder")
+            ctx.assume(inp["mv"] != 0)
+            inp["y"][1] = inp["mv"]  # the placeholder occurs in the data (other values may coincide with it too)
+        elif w.startswith("imputer"):
             mask = [bool(ctx.fresh_bool("nan%d" % i)) for i in range(n)]
             if all(mask):
                 ctx.assume(False)
             inp["y"] = [float("nan") if m else v for v, m in zip(inp["y"], mask)]
+        if w == "naive-drift-failing-predict":
+            if n != 5:
+                ctx.assume(False)
+            inp["y"][1] = float("nan")
         if w == "deseasonalizer":
             inp["sigma"] = fresh_reals(ctx, "sig", 2)
         if w == "hampel":
@@ -93,6 +101,8 @@ class C12(Harness):
     def _snapshot(self, est):
         snap = {}
         for k, v in sorted(vars(est).items()):
+            if k == "_fh":
+                continue  # the horizon passed to the latest predict is remembered by design
             if hasattr(v, "values") and hasattr(v, "index"):
                 snap[k] = ["series", L(v.index), L(v.values) if getattr(v, "ndim", 1) == 1 else [L(r) for r in L(v.values)]]
             elif hasattr(v, "shape") and hasattr(v, "tolist"):
@@ -131,6 +141,8 @@ class C12(Harness):
             T, _ = make_transformer(W, log)
             if w == "hampel":
                 t = W.load("sktime.transformations.series.outlier_detection").HampelFilter(window_length=3, n_sigma=inp["n_sigma"], k=1)
+            elif w == "imputer-placeholder":
+                t = W.load("sktime.transformations.series.impute").Imputer(method="mean", missing_values=inp["mv"])
             elif w.startswith("imputer"):
                 t = W.load("sktime.transformations.series.impute").Imputer(method=w.split("-")[1])
             elif w == "log":
@@ -167,6 +179,26 @@ class C12(Harness):
         # forecasters
         NF = W.load("sktime.forecasting.naive").NaiveForecaster
         Member = make_member(W, log)
+        if w == "naive-drift-failing-predict":
+            # an in-sample predict that raises part-way (a window bounded by the missing value) must leave the forecaster as it was
+            f = NF("drift", window_length=3)
+            f.fit(y)
+            p1 = f.predict(np.array([1, 2]))
+            before = self._snapshot(f)
+            try:
+                f.predict(np.array([-2, -1]))
+                out["failing_predict_raised"] = False
+            except ValueError:
+                out["failing_predict_raised"] = True
+            mid = self._snapshot(f)
+            try:
+                p2 = pack(f.predict(np.array([1, 2])))
+            except ValueError:
+                p2 = [["raised"], ["ValueError"]]
+            out["y_after_fit"] = pack(y)
+            out["r1"], out["r2"] = pack(p1), p2
+            out["state"] = [before, mid, self._snapshot(f)]
+            return out
         if w.startswith("naive"):
             f = NF(w.split("-")[1], window_length=3 if w == "naive-mean" else None)
         elif w == "poly":
